@@ -371,6 +371,113 @@ where
     }
 }
 
+
+/// Poll an enumerating iterator far past its end: a slice iterator stays exhausted for ever, so a
+/// cursor that keeps moving (and wraps at 8 or 16 bits) shows up as a late `Some` or a size_hint
+/// that comes back to life.
+fn long_poll<I, T>(c: &mut Collector, name: &str, mk: &dyn Fn() -> I, all: &[T], polls: usize)
+where
+    I: DoubleEndedIterator<Item = T> + Clone,
+    T: PartialEq + Debug + Copy,
+{
+    // (items taken from the front first, items taken from the back first, polling pattern)
+    for front in 0..=all.len() {
+        for back in [0usize, 1, all.len().saturating_sub(front)] {
+            for pattern in 0..3u8 {
+                c.eval();
+                c.count("long-poll-histories");
+                let mut real = mk();
+                let mut model = all.iter();
+                for _ in 0..back.min(all.len()) {
+                    real.next_back();
+                    model.next_back();
+                }
+                for _ in 0..front {
+                    real.next();
+                    model.next();
+                }
+                for i in 0..polls {
+                    let from_back = match pattern {
+                        0 => false,
+                        1 => true,
+                        _ => i % 2 == 1,
+                    };
+                    let (g, w) = if from_back { (real.next_back(), model.next_back().copied()) } else { (real.next(), model.next().copied()) };
+                    if g != w || real.size_hint() != model.size_hint() {
+                        c.violation(
+                            "iterator-differs-from-slice-iterator",
+                            name,
+                            format!(
+                                "{name}: {back} next_back, {front} next, then poll #{} ({}): returned {g:?} with size_hint {:?}; a slice iterator returns {w:?} with {:?}",
+                                i + 1,
+                                ["next", "next_back", "alternating"][pattern as usize],
+                                real.size_hint(),
+                                model.size_hint()
+                            ),
+                            obj().set("iterator", name).set("front", front as u64).set("back", back as u64).set("pattern", pattern as u64).set("poll", i as u64),
+                        );
+                        return;
+                    }
+                }
+                c.add("polls-past-the-end", polls.saturating_sub(all.len()) as u64);
+            }
+        }
+    }
+}
+
+fn long_poll_forward<I, T>(c: &mut Collector, name: &str, mk: &dyn Fn() -> I, all: &[T], polls: usize)
+where
+    I: Iterator<Item = T>,
+    T: PartialEq + Debug + Copy,
+{
+    c.eval();
+    c.count("long-poll-histories");
+    let mut real = mk();
+    let mut model = all.iter();
+    for i in 0..polls + all.len() {
+        let (g, w) = (real.next(), model.next().copied());
+        if g != w || real.size_hint() != model.size_hint() {
+            c.violation(
+                "iterator-differs-from-slice-iterator",
+                name,
+                format!("{name}: next() #{}: returned {g:?} with size_hint {:?}; a slice iterator returns {w:?} with {:?}", i + 1, real.size_hint(), model.size_hint()),
+                obj().set("iterator", name).set("poll", i as u64),
+            );
+            return;
+        }
+    }
+    c.add("polls-past-the-end", polls as u64);
+}
+
+/// Code points whose low byte (or low 16 bits) equals `b`: a parser that narrows `char` to `u8`
+/// instead of reading the UTF-8 bytes would take them for `b`.
+fn aliases_of(b: u8) -> Vec<char> {
+    [0x100u32, 0x200, 0x300, 0x1E00, 0x2400, 0x3000, 0xFF00, 0x1_0000, 0x1_F600, 0x10_FF00]
+        .iter()
+        .filter_map(|hi| char::from_u32(hi + b as u32))
+        .collect()
+}
+
+/// Every valid spelling in `texts` with one character replaced by each of its wide aliases.
+fn wide_alias_strings(c: &mut Collector, texts: &[String]) {
+    for t in texts {
+        let chars: Vec<char> = t.chars().collect();
+        for i in 0..chars.len() {
+            let b = chars[i] as u32 as u8;
+            for variant in [b, b ^ 0x20] {
+                for w in aliases_of(variant) {
+                    let mut s = String::new();
+                    for (j, ch) in chars.iter().enumerate() {
+                        s.push(if j == i { w } else { *ch });
+                    }
+                    c.count("wide-alias-strings");
+                    check_bytes(c, s.as_bytes());
+                }
+            }
+        }
+    }
+}
+
 fn forward_iter<I, T>(c: &mut Collector, name: &str, mk: &dyn Fn() -> I, all: &[T])
 where
     I: Iterator<Item = T> + Clone,
@@ -525,6 +632,31 @@ pub fn run(c: &mut Collector, a: &Args) {
         c.count("seeded-strings");
         check_bytes(c, &s);
     }
+    // wide characters that alias a valid byte when narrowed
+    {
+        let mut texts: Vec<String> = Vec::new();
+        if a.shard == 0 {
+            for t in ["a", "h", "A", "H", "1", "8", "p", "n", "b", "r", "q", "k", "P", "N", "B", "R", "Q", "K"] {
+                texts.push(t.to_string());
+            }
+            for s in 0..64u8 {
+                texts.push(pos(s).to_string());
+            }
+        }
+        let mut k = 0u64;
+        for from in 0..64u8 {
+            for to in 0..64u8 {
+                k += 1;
+                if k % a.nshards != a.shard || k % (if a.small { 409 } else { 13 }) != 0 {
+                    continue;
+                }
+                texts.push(format!("{}{}", pos(from), pos(to)));
+                texts.push(format!("{}-{}", pos(from), pos(to)).to_uppercase());
+            }
+        }
+        c.journal("wide alias strings");
+        wide_alias_strings(c, &texts);
+    }
     // iterators
     let maxlen = if a.small { 2 } else { 6 };
     let colors = [Color::White, Color::Black];
@@ -548,6 +680,42 @@ pub fn run(c: &mut Collector, a: &Args) {
             let rs: Vec<chess_bitboard::Pos> = (0..8).map(|k| pos(i * 8 + k)).collect();
             forward_iter(c, "File::iter", &move || f.iter(), &fs);
             forward_iter(c, "Rank::iter", &move || r.iter(), &rs);
+        }
+    }
+    // polling far past the end (8- and 16-bit cursor wrap)
+    {
+        c.journal("long polls");
+        let polls = if a.small { 700 } else { 70_000 };
+        match a.shard % 5 {
+            0 => long_poll(c, "Color::all", &Color::all, &colors, polls),
+            1 => long_poll(c, "Side::all", &Side::all, &sides, polls),
+            2 => long_poll(c, "Piece::all", &Piece::all, &pieces, polls),
+            3 => long_poll(c, "File::all", &File::all, &files, polls),
+            _ => long_poll(c, "Rank::all", &Rank::all, &ranks, polls),
+        }
+        if a.nshards < 5 {
+            for k in 0..5u64 {
+                if k == a.shard % 5 {
+                    continue;
+                }
+                match k {
+                    0 => long_poll(c, "Color::all", &Color::all, &colors, polls),
+                    1 => long_poll(c, "Side::all", &Side::all, &sides, polls),
+                    2 => long_poll(c, "Piece::all", &Piece::all, &pieces, polls),
+                    3 => long_poll(c, "File::all", &File::all, &files, polls),
+                    _ => long_poll(c, "Rank::all", &Rank::all, &ranks, polls),
+                }
+            }
+        }
+        if a.shard == 0 {
+            let squares: Vec<chess_bitboard::Pos> = (0..64).map(pos).collect();
+            long_poll_forward(c, "Pos::all", &chess_bitboard::Pos::all, &squares, polls);
+            let f = File::from_u8(3).unwrap();
+            let r = Rank::from_u8(6).unwrap();
+            let fs: Vec<chess_bitboard::Pos> = (0..8).map(|k| pos(k * 8 + 3)).collect();
+            let rs: Vec<chess_bitboard::Pos> = (0..8).map(|k| pos(6 * 8 + k)).collect();
+            long_poll_forward(c, "File::iter", &move || f.iter(), &fs, polls);
+            long_poll_forward(c, "Rank::iter", &move || r.iter(), &rs, polls);
         }
     }
     // huge skip counts, from both ends, after 0..2 preceding steps
